@@ -277,8 +277,16 @@ def st_flow(draw: st.DrawFn, tier: str) -> dict:
 # layers "stream" and "datagram": real protocols + adapters over the fake asyncio transports
 
 
-def _payload(j: int, n: int) -> bytes:
-    return bytes([0x41 + (j % 26)]) * n
+def _payload(j: int, n: int, view: str | None = None) -> Any:
+    data = bytes([0x41 + (j % 26)]) * n
+    if view == "Q" and n >= 8:
+        # the same bytes as a memoryview with 8-byte items (array / numpy / struct views): len() counts items
+        import array
+
+        arr = array.array("Q")
+        arr.frombytes(data[: n - n % 8])
+        return memoryview(arr)
+    return data
 
 
 def run_transport(case: dict) -> Outcome:
@@ -333,9 +341,9 @@ def run_transport(case: dict) -> Outcome:
                     else:
                         await adapter.send_all_from_iterable([_payload(j, n) for n in sizes])
                 elif flavour == "endpoint":
-                    await adapter.send(_payload(j, sizes[0]))
+                    await adapter.send(_payload(j, sizes[0], case.get("view")))
                 else:
-                    await adapter.send_to(_payload(j, sizes[0]), PEER)
+                    await adapter.send_to(_payload(j, sizes[0], case.get("view")), PEER)
             except asyncio.CancelledError:
                 rec["state"] = "cancelled"
                 raise
@@ -618,6 +626,8 @@ def _st_transport(flavours: list[str]):  # type: ignore[no-untyped-def]
             "eager": draw(st.booleans()),
             "finale": draw(st.sampled_from(["drain", "drain", "lost"] + ERRNAMES[:2])),
         }
+        if not stream and draw(st.integers(0, 3)) == 0:
+            case["view"] = "Q"  # datagrams given as memoryviews with 8-byte items
         if stream:
             case["max_send"] = draw(st.sampled_from([None, None, 1, 7]))
         return case
@@ -670,6 +680,9 @@ def run_real(case: dict) -> Outcome:
                         arr = array.array("Q")
                         arr.frombytes(data[: chunk - chunk % 8])
                         data = memoryview(arr)
+                    elif case.get("view") == "2D" and case.get("api") != "iterable":
+                        # contiguous bytes with two dimensions (an image, a ctypes 2-D array): len() counts rows
+                        data = memoryview(data[: chunk - chunk % 1024]).cast("B", shape=[(chunk - chunk % 1024) // 1024, 1024])
                     if case.get("api") == "iterable":
                         step = chunk // 16
                         await transport.send_all_from_iterable([data[o : o + step] for o in range(0, chunk, step)])
@@ -719,6 +732,8 @@ def run_real(case: dict) -> Outcome:
             result["received"] = len(received)
             if case.get("view") == "Q" and case.get("api") != "iterable":
                 chunk -= chunk % 8
+            elif case.get("view") == "2D" and case.get("api") != "iterable":
+                chunk -= chunk % 1024
             result["content_ok"] = bytes(received) == b"".join(bytes([65 + i]) * chunk for i in range(nsends))
             await transport.aclose()
         finally:
@@ -761,7 +776,7 @@ def st_real(tier: str):  # type: ignore[no-untyped-def]
             "iterations": st.sampled_from([50, 100, 200]),
             "sndbuf": st.sampled_from([0, 65536]),
             "api": st.sampled_from(["send_all", "send_all", "send_all", "iterable"]),
-            "view": st.sampled_from(["bytes", "bytes", "Q"]),
+            "view": st.sampled_from(["bytes", "bytes", "Q", "2D"]),
         }
     )
 
